@@ -420,6 +420,9 @@ func Run(sc Scenario, root string, rseed int64) *Outcome {
 			case "remove":
 				w.RemoveTarget(ev.Target.ID)
 				note("  workload: target %d removed", ev.Target.ID)
+			case "targetDown":
+				w.SetDown(ev.Target.ID, true)
+				note("  workload: target %d starts answering 500", ev.Target.ID)
 			case "sleep":
 				time.Sleep(time.Duration(ev.Cycles) * time.Millisecond)
 				note("  workload: %d ms pass", ev.Cycles)
